@@ -68,9 +68,15 @@ func genC12(t *rapid.T) gen.ProgCase {
 	return gen.GenProgram(g, gen.ProgOpts{MaxTemplates: 4, MaxDepth: 3, MaxCmds: 4, ExprDepth: 2, PosWeight: 2, CallWeight: 8, MinTemplates: 1, MsgWeight: 8})
 }
 
+// c12Bundle, when set, is the message bundle the renders of the current case use.
+var c12Bundle *mapBundle
+
 func renderTo(cb *compiled, c gen.ProgCase, w io.Writer) (err error, pn interface{}) {
 	pn = catch(func() {
 		rd := cb.tofu.NewRenderer(c.Entry)
+		if c12Bundle != nil {
+			rd.WithMessages(c12Bundle)
+		}
 		if c.HasIJ {
 			rd.Inject(toDataMap(c.IJ))
 		}
@@ -91,6 +97,13 @@ func checkC12(c gen.ProgCase) Verdict {
 	if err != nil || pn != nil {
 		return excluded("does not compile (C01/C02 matter)")
 	}
+	// half of the cases render through a message bundle (translated text and placeholders are
+	// written by different code than the source text of a message)
+	c12Bundle = nil
+	if hashCase(c)%2 == 0 {
+		c12Bundle = identityBundle(cb)
+	}
+	defer func() { c12Bundle = nil }()
 	base := &faultWriter{failCall: -1, capacity: -1}
 	if err, pn := renderTo(cb, c, base); err != nil || pn != nil {
 		return bad(true, "fault-free render failed: %v %v\n%s", err, pn, showSources(names, srcs))
